@@ -22,7 +22,7 @@ ASSUMPTIONS = [
     'look-ahead is measured at row-iterator level (rows pulled from the Python source), not bytes read by a file parser',
     'the constant allows the inference sample (100 rows for iterables, 1000 rows for load() of a file) plus 64 rows of fixed batching',
 ]
-BUDGET = {'quick': dict(examples=640, shards=8, seconds=80),
+BUDGET = {'quick': dict(examples=1280, shards=16, seconds=80),
           'thorough': dict(examples=6000, shards=16, seconds=1200)}
 
 KINDS = ['add_field', 'add_computed', 'delete_fields', 'select_fields', 'rename_fields', 'find_replace', 'set_type', 'validate',
